@@ -22,7 +22,7 @@ package modproof
 //@   loop 1 invariant pf.W != nil && pf.A != nil && pf.B != nil && (forall k in 0..80 :: pf.X[k] != nil) && (forall k in 0..$iter :: pf.Z[k] != nil)
 
 //@ func (*ProofMod).Verify
-//@   props C06 C11 C05
+//@   props C06 C11 C05 C10
 //@   requires len(Session) <= 1048576
 //@   requires pf != nil ==> (wfMod(pf) ==> (forall k in 0..80 :: (val(pf.X[k]) >= 0 && val(pf.Z[k]) >= 0)))
 //@   ensures result ==> (pf != nil && wfMod(pf) && N != nil)
